@@ -24,7 +24,10 @@ RGW6 = {v: k for k, v in GW6.items()}
 
 # svc -> (proto, port) ; device spelling uses names, Netspoc spelling numbers
 SVC = {"ip": ("ip", None), "tcp": ("tcp", None), "icmp": ("icmp", None),
-       "tcp80": ("tcp", 80), "tcp22": ("tcp", 22), "udp53": ("udp", 53)}
+       "tcp80": ("tcp", 80), "tcp22": ("tcp", 22), "udp53": ("udp", 53),
+       # members of service object-groups: ports without a name (the tool documents that named ports inside
+       # object-groups are not normalised - asa_acl.t "Element of object-group with named port ...")
+       "tcp81": ("tcp", 81), "tcp82": ("tcp", 82)}
 PORTNAME = {("tcp", 80): "www", ("tcp", 22): "ssh", ("udp", 53): "domain"}
 RPORT = {"www": 80, "ssh": 22, "domain": 53, "http": 80}
 LOGS = {"": "", "log": " log", "log4": " log 4"}
@@ -51,18 +54,30 @@ def term(t, dev):
     raise Broken("bad term %r" % (t,))
 
 
+PORTATOM = {80: "tcp80", 22: "tcp22", 53: "udp53", 81: "tcp81", 82: "tcp82"}
+
+
 def ace_text(name, ace, dev, line=None):
-    proto, port = SVC[ace["svc"]]
+    sgrp = None
+    if ace["svc"] in SVC:
+        proto, port = SVC[ace["svc"]]
+    else:                       # the service is an object-group of type `service ... tcp`
+        proto, port, sgrp = "tcp", None, ace["svc"]
     s = "access-list %s %sextended %s %s %s %s" % (
         name, ("line %d " % line) if line else "", ace["act"], proto,
         term(ace["src"], dev), term(ace["dst"], dev))
     if port is not None:
         s += " eq %s" % (PORTNAME[(proto, port)] if dev else port)
+    if sgrp:
+        s += " object-group " + sgrp
     s += (LOGS_DEV if dev else LOGS)[ace["log"]]
     return s
 
 
-def member_text(a):
+def member_text(a, dev=False):
+    if a in SVC:                # member of a service group
+        proto, port = SVC[a]
+        return "port-object eq %s" % (PORTNAME.get((proto, port), port) if dev else port)
     if a in ADDR:
         return "network-object host " + ADDR[a]
     return "network-object %s %s" % NETS[a]
@@ -88,9 +103,13 @@ def render(cfg, dev):
         for i in sorted(cfg.get("ifs", [])):
             out += ["interface " + IFHW[i], " nameif " + i, " security-level 0", "!"]
     for g in sorted(cfg["groups"]):
-        out.append("object-group %s %s" % (cfg["groups"][g]["typ"], g))
+        typ = cfg["groups"][g]["typ"]
+        if typ.startswith("service-"):
+            out.append("object-group service %s %s" % (g, typ[len("service-"):]))
+        else:
+            out.append("object-group %s %s" % (typ, g))
         for a in sorted(cfg["groups"][g]["m"]):
-            out.append(" " + member_text(a))
+            out.append(" " + member_text(a, dev))
     for n in sorted(cfg["acls"]):
         for ace in cfg["acls"][n]:
             out.append(ace_text(n, ace, dev))
@@ -145,9 +164,13 @@ def parse_ace(tok):
     src, rest = _addr(tok[2:])
     dst, rest = _addr(rest)
     port = None
+    sgrp = None
     if rest and rest[0] == "eq":
         p = rest[1]
         port = RPORT.get(p) or int(p)
+        rest = rest[2:]
+    elif rest and rest[0] == "object-group":
+        sgrp = rest[1]
         rest = rest[2:]
     log = ""
     if rest:
@@ -157,6 +180,10 @@ def parse_ace(tok):
             log = "log4"
         else:
             raise Broken("cmdparse: unknown ACE tail %r" % rest)
+    if sgrp:
+        if proto != "tcp":
+            raise Broken("cmdparse: service group with protocol " + proto)
+        return {"act": act, "svc": sgrp, "src": src, "dst": dst, "log": log}
     svc = [k for k, v in SVC.items() if v == (proto, port)]
     if not svc:
         raise Broken("cmdparse: unknown service %s %s" % (proto, port))
@@ -164,6 +191,9 @@ def parse_ace(tok):
 
 
 def parse_member(tok):
+    if tok[:2] == ["port-object", "eq"]:
+        p = RPORT.get(tok[2]) or int(tok[2])
+        return PORTATOM[p]
     if tok[0] == "network-object":
         if tok[1] == "host":
             return RADDR[tok[2]]
@@ -213,8 +243,9 @@ def parse_cmd(line):
     if tok[0] == "object-group":
         if no:
             return {"ev": "GrpDelete", "n": tok[2]}
-        return {"ev": "GrpEnter", "typ": tok[1], "n": tok[2]}
-    if tok[0] == "network-object":
+        typ = tok[1] if len(tok) == 3 else "%s-%s" % (tok[1], tok[3])
+        return {"ev": "GrpEnter", "typ": typ, "n": tok[2]}
+    if tok[0] in ("network-object", "port-object"):
         return {"ev": "MemberDel" if no else "MemberAdd", "a": parse_member(tok)}
     if tok[0] == "access-group":
         if tok[2] == "global":
@@ -257,7 +288,7 @@ def same_line(a, b):
 
 
 def grp_refs(ace):
-    return {t["v"] for t in (ace["src"], ace["dst"]) if t["k"] == "grp"}
+    return {t["v"] for t in (ace["src"], ace["dst"]) if t["k"] == "grp"} | ({ace["svc"]} if ace["svc"] not in SVC else set())
 
 
 class Replica:
